@@ -112,11 +112,12 @@ def Seeds.given : Seeds → Bool
   | _ => true
 
 /-- `get_adjacency_values(input_matrix, force_bipartite, values, values_row, values_col)` (no `which`);
-    `check_format` refuses a matrix without stored entry -/
+    `check_format` refuses a matrix without stored entry; for a bipartite input `values` is an alias of `values_row` and is
+    stacked with `values_col` -/
 def adjacencyValues (c : Csr Rat) (forceBip : Bool) (v r cc : Seeds) : Except PyErr Routed :=
   if c.indices.size == 0 then .error .valueError
   else if forceBip || r.given || cc.given || c.nRow != c.nCol then
-    (if v.given then stackValues c.nRow c.nCol v .none else stackValues c.nRow c.nCol r cc).map
+    (if v.given then stackValues c.nRow c.nCol v cc else stackValues c.nRow c.nCol r cc).map
       fun vals => ⟨blockCsr c, vals, true⟩
   else (getValues c.nRow v).map fun vals => ⟨c, vals, false⟩
 
